@@ -22,12 +22,15 @@ ScalarEntries == {"rotation_matrix", "standard_rotation2", "standard_rotation3",
                   "ideal_from_angle", "regular_polygon_angle", "regular_polygon_radius", "number_like", "zeros_like",
                   "identity_like", "array_like_scalar", "regular_polygon_radius_fn", "polygon_interior_angle_fn"}
 ArrayEntries == {"elliptic_block", "sl2_iso", "point_klein", "point_projective", "transformation", "array_like_matrix",
-                 "isometry_matrix", "tangent_vector", "segment", "polygon"}
+                 "isometry_matrix", "tangent_vector", "segment", "polygon",
+                 \* composite objects built from a LIST of unit objects: the packaging is that of the FIRST part, the
+                 \* second part always carries non-integral floating-point data
+                 "point_from_parts", "transformation_from_parts", "polygon_from_parts"}
 IntEntries == {"coxeter_matrix", "triangle_group", "coxeter_diagram"}          \* Coxeter labels
 
 ScalarPacks == {"py_float", "py_int", "np_float64", "np_float32", "np_int64", "zero_d_float", "zero_d_int"}
 ArrayPacks == {"nested_list_float", "nested_list_int", "ndarray_float64", "ndarray_float32", "ndarray_int64", "tuple_float"}
-IntPacks == {"py_int", "np_int64", "np_int32", "ndarray_int64", "nested_list_int"}
+IntPacks == {"py_int", "np_int64", "np_int32", "ndarray_int64", "nested_list_int", "ndarray_float64", "nested_list_float"}
 
 \* values: "frac" = a non-integral real, "int" = an integral real, "zero"
 Vals == {"frac", "int", "zero"}
